@@ -140,6 +140,8 @@ def run(pid, tier):
                 if cl == "P3" and nt == 0:
                     continue
                 jobs.append((nw, nt, cl, True))
+    # P5 (one dependency between tasks, needs two workers): work conservation of the locked protocol
+    jobs += [(2, 2, "P5", True), (2, 3, "P5", True)] + ([(3, 2, "P5", True)] if thorough else [])
     # the original (unlocked) protocol must still show its lost wake-up: keeps the model honest
     jobs += [(1, 1, "P1", False), (1, 0, "P1", False), (1, 1, "P2", False), (1, 1, "P3", False)]
     states = trans = 0
@@ -177,6 +179,7 @@ def run(pid, tier):
         plan = [(1, 0, 2), (1, 1, 2), (1, 2, 2), (2, 1, 1), (2, 2, 1), (3, 1, 1)]
         maxruns = 6000
     items = [(nw, nt, cl, pb) for cl in CLIENTS for (nw, nt, pb) in plan if not (cl == "P3" and nt == 0)]
+    items += [(2, 2, "P5", 2), (2, 3, "P5", 1), (3, 2, "P5", 1)] + ([(3, 3, "P5", 1), (2, 2, "P5", 3)] if thorough else [])
     executions = 0
     l2_div = 0
     l2_unlocked_conform = 0
@@ -191,6 +194,9 @@ def run(pid, tier):
             raise RuntimeError("explorer failed: " + r.stderr[-500:])
         info = json.loads(r.stdout)
         h1, bad1 = validate("L1", tr, nw, nt, cl, tag="ex")
+        if cl == "P5":
+            # the dependency uses a mutex / condition variable of its own, which the L2 trace spec does not know: L1 verdict only
+            return it, tr, info, h1, bad1, {"diverged": 0}, [], None
         h2, bad2 = validate("L2", tr, nw, nt, cl, True, tag="ex")
         hu = None
         if h2["diverged"]:
@@ -284,6 +290,19 @@ def run(pid, tier):
                            "source_hash": vlib.src_hash()}, open(os.path.join(d, "replay.json"), "w"), indent=1)
                 V.reject({"client": cl, "nw": nw, "nt": nt, "event": b["e"], "mode": "stress"},
                          "L1 rejects free-running execution: %s" % b, d)
+    for (nw, nt) in [(2, 2), (3, 10), (8, 50)]:
+        tr = os.path.join(work, "stress_P5_%d_%d.ndjson" % (nw, nt))
+        subprocess.run([exe, "stress", str(nw), str(nt), "P5", str(reps), tr], capture_output=True, text=True, timeout=3000)
+        h1, bad1 = validate("L1", tr, nw, nt, "P5", tag="s5")
+        stress_runs += h1["runs"]
+        for b in bad1[:2]:
+            d = vlib.replay_dir(pid, "stress_P5_%d_%d_run%d" % (nw, nt, b["run"]))
+            lines, _ = split_runs(tr)[b["run"]]
+            open(os.path.join(d, "trace.ndjson"), "w").writelines(lines)
+            json.dump({"nw": nw, "nt": nt, "client": "P5", "mode": "stress", "rejected_event": b,
+                       "source_hash": vlib.src_hash()}, open(os.path.join(d, "replay.json"), "w"), indent=1)
+            V.reject({"client": "P5", "nw": nw, "nt": nt, "event": b["e"], "mode": "stress"},
+                     "L1 rejects free-running execution with dependent tasks: %s" % b, d)
     # several pools alive at once (client P4): the pool under test must behave like P1 whatever happens to the others
     for (nw, nt) in [(1, 2), (2, 6), (4, 40)] + ([(3, 9), (8, 100)] if thorough else []):
         tr = os.path.join(work, "stress_P4_%d_%d.ndjson" % (nw, nt))
